@@ -56,7 +56,7 @@ func prg(addr uint16, code ...uint8) []byte {
 // ---------------------------------------------------------------------------------------
 // C09: verdicts
 
-var numIterKinds = []string{"absent", "raise", "0", "1", "3", "2.5", "str3", "nil", "true", "table"}
+var numIterKinds = []string{"absent", "raise", "0", "1", "3", "2.5", "str3", "nil", "true", "table", "0.5", "0.999"}
 var assertKinds = []string{"true", "false", "nil", "1", "strtrue", "nothing", "truemsg", "raise"}
 var binKinds = []string{"brk", "brk", "brk", "illegal", "bcd", "unmapped", "short", "asmfail", "trapok", "trapraise", "trapmissing", "trapruntime", "trapfirstraise", "trapsecondraise"}
 
